@@ -11,12 +11,18 @@ open Spec
 
 def FreeOf (cs body : List Char) : Prop := ∀ c ∈ body, c ∉ cs
 
+/-- stripping the delimiters from `ds ++ body ++ de` gives `body` back: the body does not begin with the start
+    delimiter (nor does a start delimiter begin in the body and run into the end delimiter), and it does not end with
+    the end delimiter -/
+def StripOK (ds de body : List Char) : Prop :=
+  ds.isPrefixOf (body ++ de) = false ∧ de.reverse.isPrefixOf body.reverse = false
+
 /-- the same text, or the same tag body under the two delimiter pairs -/
 def TokX0 (ds de ds' de' : List Char) (t u : Token) : Prop :=
   t.kind = u.kind ∧
     ((t.kind = .text ∧ t.value = u.value) ∨
      (t.kind = .element ∧ ∃ body, body ≠ [] ∧ t.value = ds ++ body ++ de ∧ u.value = ds' ++ body ++ de' ∧
-        FreeOf (ds ++ de) body ∧ FreeOf (ds' ++ de') body))
+        StripOK ds de body ∧ StripOK ds' de' body))
 
 theorem isPrefixOf_false_of_head (ds body rest : List Char) (hds : ds ≠ []) (hb : body ≠ [])
     (hf : ∀ c ∈ body, c ∉ ds) : ds.isPrefixOf (body ++ rest) = false := by
@@ -40,6 +46,14 @@ theorem elparse_free (ds de body : List Char) (t : Token) (hds : ds ≠ []) (hde
       (fun c hc hm => hf c (by simpa using hc) (by simp at hm; simp [hm]))
     simpa using this
 
+/-- a body none of whose characters occurs in the delimiters can be stripped -/
+theorem stripOK_of_free (ds de body : List Char) (hds : ds ≠ []) (hde : de ≠ []) (hb : body ≠ [])
+    (hf : FreeOf (ds ++ de) body) : StripOK ds de body := by
+  refine ⟨isPrefixOf_false_of_head ds body de hds hb (fun c hc hm => hf c hc (by simp [hm])), ?_⟩
+  have := isPrefixOf_false_of_head de.reverse body.reverse [] (by simpa using hde) (by simpa using hb)
+    (fun c hc hm => hf c (by simpa using hc) (by simp at hm; simp [hm]))
+  simpa using this
+
 theorem elparse_x (ds de ds' de' : List Char) (hds : ds ≠ []) (hde : de ≠ []) (hds' : ds' ≠ []) (hde' : de' ≠ [])
     (t u : Token) (h : TokX0 ds de ds' de' t u) : elparse ds de t = elparse ds' de' u := by
   obtain ⟨hk, h | h⟩ := h
@@ -48,7 +62,8 @@ theorem elparse_x (ds de ds' de' : List Char) (hds : ds ≠ []) (hde : de ≠ []
     simp [elparse, hkt, hku]
   · obtain ⟨hkt, body, hb, hv, hv', hf, hf'⟩ := h
     have hku : u.kind = .element := by rw [← hk]; exact hkt
-    rw [elparse_free ds de body t hds hde hb hkt hv hf, elparse_free ds' de' body u hds' hde' hb hku hv' hf']
+    rw [Props.C09.elparse_of_body ds de body t hds hde hb hkt hv hf.1 hf.2,
+      Props.C09.elparse_of_body ds' de' body u hds' hde' hb hku hv' hf'.1 hf'.2]
 
 /-! ### forests of the same shape -/
 
@@ -302,8 +317,41 @@ def Piece.free (cs : List Char) : Piece → Prop
   | .text s => FreeOf cs s
   | .tag b0 rest => FreeOf cs (b0 :: rest)
 
+/-- the body of a tag piece can be stripped of the delimiters -/
+def Piece.strip (ds de : List Char) : Piece → Prop
+  | .text _ => True
+  | .tag b0 rest => StripOK ds de (b0 :: rest)
+
+/-- a piece that fits the delimiters `ds = d0 :: _`, `de = e0 :: _`: a text without `d0`; a tag whose body has no `e0`
+    behind its first character and can be stripped -/
+def Piece.fits (d0 e0 : Char) (ds de : List Char) : Piece → Prop
+  | .text s => ∀ c ∈ s, c ≠ d0
+  | .tag b0 rest => (∀ c ∈ rest, c ≠ e0) ∧ StripOK ds de (b0 :: rest)
+
+theorem Piece.strip_of_fits (d0 e0 : Char) (ds de : List Char) (p : Piece) (h : p.fits d0 e0 ds de) : p.strip ds de := by
+  cases p with
+  | text s => trivial
+  | tag b0 rest => exact h.2
+
+theorem Piece.ok_of_fits (d0 e0 : Char) (ds de : List Char) (p : Piece) (h : p.fits d0 e0 ds de) : p.ok d0 e0 := by
+  cases p with
+  | text s => exact h
+  | tag b0 rest => exact h.1
+
+/-- pieces none of whose characters occurs in the delimiters fit them -/
+theorem Piece.fits_of_free (d0 : Char) (dr : List Char) (e0 : Char) (er : List Char) (p : Piece)
+    (h : p.free ((d0 :: dr) ++ (e0 :: er))) : p.fits d0 e0 (d0 :: dr) (e0 :: er) := by
+  cases p with
+  | text s =>
+    intro c hc hcd
+    exact h c hc (by simp [hcd])
+  | tag b0 rest =>
+    refine ⟨?_, stripOK_of_free (d0 :: dr) (e0 :: er) (b0 :: rest) (by simp) (by simp) (by simp) h⟩
+    intro c hc hce
+    exact h c (by simp [hc]) (by simp [hce])
+
 theorem tokXs_of_tnorm (ds de ds' de' : List Char) : ∀ (ps : List Piece) (acc : List Char) (T T' : List Token),
-    (∀ p ∈ ps, p.free (ds ++ de) ∧ p.free (ds' ++ de')) →
+    (∀ p ∈ ps, p.strip ds de ∧ p.strip ds' de') →
     T.map (fun t => (t.kind, t.value)) = tnorm ds de [] ps acc →
     T'.map (fun t => (t.kind, t.value)) = tnorm ds' de' [] ps acc → TokXs ds de ds' de' (fun _ _ => True) T T'
   | [], acc, T, T', _, hT, hT' => by
